@@ -203,9 +203,11 @@ func (g *Generator) Persist(res *plugin.Response) error {
 		if err := os.MkdirAll(dir, 0o755); err != nil && !os.IsExist(err) {
 			return fmt.Errorf("failed to create path '%s': %w", dir, err)
 		}
+		vhook("write-begin", path)
 		if err := ioutil.WriteFile(path, content, 0o644); err != nil {
 			return fmt.Errorf("failed to write file '%s': %w", path, err)
 		}
+		vhook("write-done", path)
 		return nil
 	})
 }
@@ -240,29 +242,42 @@ func (p *asyncPostProcess) OnFinished(f func(path string, content []byte) error)
 	var wg sync.WaitGroup
 	errs := make(chan error, len(p.jobs))
 	processing := make(chan struct{}, p.concurrency)
+	vhook("call", "")
 	for _, j := range p.jobs {
 		select {
 		case processing <- struct{}{}: // processing++, block if full
+			vhook("acquired", j.Path)
 		case err := <-errs:
+			vhook("err-recv", j.Path)
 			wg.Wait()
+			vhook("ret-err-early", j.Path)
 			return err
 		}
 		wg.Add(1)
+		vhook("dispatched", j.Path)
 		go func(path string, content []byte) {
 			defer func() { wg.Done(); <-processing }() // processing--
+			defer vhook("worker-exit", path)
+			vhook("worker-start", path)
 			var err error
 			if p.pp != nil {
 				content, err = p.pp.PostProcess(path, content)
 			}
+			vhook("pp-done", path)
 			if err == nil {
 				err = f(path, content)
 			}
+			vhook("f-done", path)
 			if err != nil {
+				vhook("err-send", path)
 				errs <- err
+				vhook("err-sent", path)
 			}
 		}(j.Path, unsafex.StringToBinary(j.Content))
 	}
+	vhook("wait", "")
 	wg.Wait()
+	vhook("waited", "")
 	select {
 	case err := <-errs:
 		return err
